@@ -89,6 +89,25 @@ def record(job):
             ev["decoded"], ev["dstr"] = "ValueError", []
         except Exception as e:
             ev["decoded"], ev["dstr"] = "!other", [ord(c) for c in type(e).__name__]
+        # the same text as the lexer hands it to the parser, and as a parameter name in a real load
+        ev["lexdiff"], ev["nameok"] = [], False
+        plain = s and not any(c in s for c in " \t\n\r\v\f") and len(s) < 40
+        if plain:
+            from pvl.lexer import lexer
+            try:
+                toks = list(lexer(s, g=g, d=dec))
+            except Exception:
+                toks = []
+            if len(toks) == 1 and str(toks[0]) == s:
+                lt = toks[0]
+                for name, f in (("q", lt.is_quoted_string), ("nd", lt.is_non_decimal), ("dec", lt.is_decimal), ("dt", lt.is_datetime),
+                                ("unq", lt.is_unquoted_string), ("pn", lt.is_parameter_name), ("sv", lt.is_simple_value)):
+                    if pred(f) != ev[name]:
+                        ev["lexdiff"].append(name)
+            if ev["nd"] or ev["dec"] or ev["dt"]:
+                from .. import loaders
+                obs = loaders.load({"PVL": "PVL", "ODL": "ODL", "PDS3": "PDS3", "ISIS": "ISIS", "OMNI": "OMNI"}[d], s + " = 1\nEND\n")
+                ev["nameok"] = obs["kind"] == "module" and any(x["t"] == "item" and x["s"] == s for x in obs["tree"]["xs"])
         ev["enc"], ev["redec"] = "none", "n/a"
         if enc is not None:
             try:
